@@ -19,16 +19,15 @@ Definition text_labels (s : list byte) : list (list byte) :=
   | _ => ps
   end.
 
+Definition is_root (s : list byte) : bool := match s with [b] => bN b =? 46 | _ => false end.
+
 Definition valid_text (s : list byte) : bool :=
   match s with
   | [] => false
   | _ =>
-    match s with
-    | [b] => if bN b =? 46 then true else forallb label_ok (text_labels s) && (wire_len (text_labels s) <=? 255)
-    | _ =>
-      let ls := text_labels s in
-      negb (match ls with [] => true | _ => false end) && forallb label_ok ls && (wire_len ls <=? 255)
-    end
+    if is_root s then true else
+    let ls := text_labels s in
+    negb (match ls with [] => true | _ => false end) && forallb label_ok ls && (wire_len ls <=? 255)
   end.
 
 (* the spelling every API must hand back: the same bytes, with the root dot appended if missing *)
